@@ -40,6 +40,12 @@ ASSUMPTIONS = [
 FLOORS = {"range_checked": 3000, "must_succeed": 200,
           "reservation_avoided": 500, "aligned_start": 200,
           "documented_failure": 5}
+ANCHORS = [("rig.place_and_route.allocate.greedy", "allocate",
+            {"global_reservation_skipped":
+                 ("resource_pointers[resource] = reservation.stop", 0),
+             "local_reservation_skipped":
+                 ("resource_pointers[resource] = reservation.stop", 1),
+             "over_allocated": "raise InsufficientResourceError("})]
 SHARDS = {"quick": 16, "thorough": 64}
 CLASSES = ["ends", "interleaved", "aligned", "zero", "tight", "exceptions"]
 
